@@ -191,6 +191,29 @@ def api_handles(fail):
             e2.set_single_succ_outputs(*e2.inputs())
         cfg2.branch_exit(e2[0])
     check("add_cfg once the exit is branched to", cfg2, 2)
+    # containers whose output row is empty: the count 0 is a count like any other
+    with d.add_nested(b) as n0:
+        n0.set_outputs()
+    check("add_nested(...).set_outputs() with no outputs", n0, 0)
+    check("add_nested parent_node with no outputs", n0.parent_node, 0)
+    e0 = Dfg(tys.Bool)
+    e0.set_outputs()
+    check("insert_nested(dfg with 0 outputs)", d.insert_nested(e0, b), 0)
+    with d.add_conditional(b) as cn0:
+        with cn0.add_case(0) as c0:
+            c0.set_outputs()
+        with cn0.add_case(1) as c1:
+            c1.set_outputs()
+    check("add_conditional with empty outputs", cn0, 0)
+    with d.add_cfg(b) as cfg0:
+        with cfg0.add_entry() as en0:
+            en0.set_single_succ_outputs()
+        cfg0.branch_exit(en0[0])
+    check("add_cfg with empty outputs", cfg0, 0)
+    with d.add_tail_loop([b], []) as tl0:
+        (jb0,) = tl0.inputs()
+        tl0.set_loop_outputs(tl0.add_op(ops.Tag(1, tys.Sum([[tys.Bool], []]))))
+    check("add_tail_loop with empty outputs", tl0, 0)
     m = Module()
     f = m.define_function("f", [tys.Bool], [tys.Bool, tys.Bool])
     f.set_outputs(*f.inputs(), *f.inputs())
